@@ -90,13 +90,19 @@ def run_pipeline(tier, seed, log=print):
         else:
             mc = l1.model_check(tier, seed, wd, log)
             gen = l1.generate(tier, seed, wd, log)
-            data = {"runs": mc["runs"], "violations": mc["violations"], "scheds": gen}
+            import apalache
+            lemma = apalache.discharge(wd, log)
+            viol = list(mc["violations"])
+            for ob in lemma["refuted"]:
+                viol.append({"c": "C02.model", "kf": "", "at": 0, "ent": -1, "driver": "apalache:" + ob, "replay": "-"})
+            data = {"runs": mc["runs"], "violations": viol, "scheds": gen, "lemma": lemma}
             for fn in os.listdir(l1dir):
                 os.remove(os.path.join(l1dir, fn)) if fn.endswith("-%s-%d.json" % (tier, seed)) else None
             with open(l1path + ".tmp", "w") as f:
                 json.dump(data, f)
             os.replace(l1path + ".tmp", l1path)
         res["tlc"] = data["runs"]
+        res["lemma"] = data.get("lemma", {})
         res["mc_viol"] = data["violations"]
         for s in data["scheds"]:
             s["driver"] = "tlc"
